@@ -1,5 +1,5 @@
-"""tools/c04_corpus.py [runs] : run the fixed C04 corpus (vlib/checks/c04.py corpus()) on /repo's unbuffered engine modes `runs`
-times and write tools/c04_corpus_known.json: the (program, mode) pairs that violate C04 on the pinned tree in EVERY run
+"""tools/corpus_known.py <ID> [runs] : run the fixed corpus of a check (vlib/checks/<id>.py run_corpus()) on /repo `runs`
+times and write the module's KNOWN_CASES file (tools/<id>_corpus_known.json): the (program, mode) pairs that violate C04 on the pinned tree in EVERY run
 (known cases, committed) and the programs whose outcome is not the same in every run (excluded from the corpus).
 Run by hand on the pinned tree only; the check never writes this file."""
 import contextlib, io, json, os, sys
@@ -7,14 +7,15 @@ sys.path.insert(0, '/verif')
 os.environ["VERIF_SHOW_KNOWN"] = "1"
 os.environ["VERIF_EVIDENCE_DIR"] = "/verif/out/reseed_evidence"
 from vlib.core import Ctx
-from vlib.checks import c04
-
-runs = int(sys.argv[1]) if len(sys.argv) > 1 else 3
+import importlib
+PID = sys.argv[1]
+c04 = importlib.import_module("vlib.checks." + PID.lower())
+runs = int(sys.argv[2]) if len(sys.argv) > 2 else 3
 if os.path.exists(c04.KNOWN_CASES):
     os.rename(c04.KNOWN_CASES, c04.KNOWN_CASES + ".old")
 per_run = []
 for k in range(runs):
-    ctx = Ctx("C04")
+    ctx = Ctx(PID)
     buf = io.StringIO()
     with contextlib.redirect_stdout(buf):
         cov = c04.run_corpus(ctx)
@@ -28,7 +29,7 @@ allkeys = set().union(*[set(c) for c in per_run])
 stable = sorted(k for k in allkeys if all(k in c for c in per_run))
 unstable_prog = sorted({k.split("/")[0] for k in allkeys if not all(k in c for c in per_run)})
 stable = [k for k in stable if k.split("/")[0] not in unstable_prog]
-json.dump({"note": "C04 corpus cases that violate the property on the pinned tree (see DESIGN.md, known findings KF5/KF6/KF6b/KF7/KF27)",
+json.dump({"note": "%s corpus cases that violate the property on the pinned tree (see DESIGN.md, known findings)" % PID,
            "cases": stable, "what": {k: sorted(per_run[0][k]) for k in stable}, "unstable_programs": unstable_prog},
           open(c04.KNOWN_CASES, "w"), indent=0)
 print("known cases:", len(stable), "unstable programs excluded:", len(unstable_prog))
